@@ -321,6 +321,18 @@ func checkC16(c *km.Ctx) {
 
 	// ---------- R-C16-3
 	checkChallengeAtomic(c, ls, "R-C16-3")
+	// a TOTP code is honoured at most once only while the spacing window is real: C14's obligations on the window
+	// (a constant of at least two seconds, tested and stamped in one critical section) are borrowed
+	r.Remap = func(rule, fn, construct string) (string, bool) {
+		if rule == "R-C14-3" {
+			return "R-C16-3", true
+		}
+		return "", false
+	}
+	saveExplain, saveND, saveAs := r.Explain, r.NotDecided, r.Assume
+	checkC14(c)
+	r.Explain, r.NotDecided, r.Assume = saveExplain, saveND, saveAs
+	r.Remap = nil
 
 	// ---------- R-C16-4
 	load, save := RS+"LoadUserProfile", RS+"SaveUserProfile"
